@@ -66,7 +66,7 @@ class Bar(object):
         # warning should raise exception
         if _meter.valid_beat_duration(meter[1]):
             self.meter = (meter[0], meter[1])
-            self.length = meter[0] * (1.0 / meter[1])
+            self.length = meter[0] / meter[1]
         elif meter == (0, 0):
             self.meter = (0, 0)
             self.length = 0.0
